@@ -132,6 +132,7 @@ def inline_call(cj, cb, hj):
     hl = copy.deepcopy(hj["locals"])
     hb = copy.deepcopy(hj["blocks"])
     for bl in hb:
+        bl.setdefault("from", hj["id"])  # the function the code was written in (ownership rules ask for it)
         _shift(bl.get("s", []), loff, boff)
         tt = bl["t"]
         # operands / places of the terminator
